@@ -266,9 +266,9 @@ def run(chk):
     chk.rule("R06.2", "stage wiring, acceptance polarity, raising on non-convergence, marching by the accepted step")
     chk.rule("R06.3", "right-hand side is Newtonian attraction of each body plus thrust inside burn windows")
     chk.rule("R06.4", "copy() of the numerical propagator forwards every constructor parameter")
-    r06_1(chk)
-    r06_2(chk)
-    r06_3(chk)
-    r06_4(chk)
+    chk.guard(r06_1, chk)
+    chk.guard(r06_2, chk)
+    chk.guard(r06_3, chk)
+    chk.guard(r06_4, chk)
     chk.assume("theorem: a Runge-Kutta tableau of order p applied to a smooth ODE converges with order p; its hypotheses "
                "(order conditions, correct stage wiring, smooth right-hand side) are what is checked")
